@@ -186,3 +186,34 @@ Proof.
     + vm_compute; reflexivity.
     + repeat constructor.
 Qed.
+
+(** ** the availability budget over whole rounds *)
+(** nodes without a Ready pod *)
+Definition a_unavailable (s : astate) : Z := a_missing s + a_up_notready s + a_old_notready s + a_terminating s.
+
+(** The availability budget over whole rounds: a fair round never leaves more nodes without a Ready pod than there were
+    before it or than maxUnavailable allows - whatever the creation limit: the controller's own deletions of available
+    pods stop at the budget, and everything else a round does (creations, pods becoming Ready, terminating pods going
+    away) only moves nodes between the unavailable classes or out of them. *)
+Theorem round_keeps_availability : forall maxc mu s,
+  a_wf s -> 0 <= mu -> a_unavailable (a_round maxc mu s) <= Z.max (a_unavailable s) mu.
+Proof.
+  intros maxc mu [m ur un orr onr t] [H1 [H2 [H3 [H4 [H5 H6]]]]] Hmu.
+  unfold a_unavailable, a_round, a_sync, a_settle, a_limits, calc_create, calc_delete, a_nodes in *.
+  cbn [a_missing a_up_ready a_up_notready a_old_ready a_old_notready a_terminating lp_nodes lp_pods lp_available
+       lp_old_available lp_created lp_unresponsive lp_old_unavailable lp_max_creation lp_max_unavailable lp_max_unschedulable] in *.
+  lia.
+Qed.
+
+(** ... hence along any chain of fair rounds whose maxUnavailable stays below [mu] *)
+Inductive a_chain_mu (mu : Z) : astate -> nat -> astate -> Prop :=
+| acm0 : forall s, a_chain_mu mu s 0 s
+| acmS : forall s maxc mu' n s', 0 <= mu' <= mu -> a_chain_mu mu (a_round maxc mu' s) n s' -> a_chain_mu mu s (S n) s'.
+
+Theorem chain_keeps_availability : forall mu n s s',
+  a_wf s -> a_chain_mu mu s n s' -> a_unavailable s' <= Z.max (a_unavailable s) mu.
+Proof.
+  intros mu n; induction n as [|k IH]; intros s s' Hwf Hc; inversion Hc as [|s0 maxc mu' n0 s1 Hmu Hrest]; subst; [lia|].
+  destruct (round_wf maxc mu' s Hwf) as [Hwf' _].
+  pose proof (IH _ _ Hwf' Hrest) as A. pose proof (round_keeps_availability maxc mu' s Hwf ltac:(lia)) as B. lia.
+Qed.
